@@ -7,19 +7,40 @@ use crate::explore::{n_threads, par_map};
 use crate::report::Report;
 use serde_json::{json, Value};
 
-/// Splits a ThreadSanitizer log into reports; a report counts when it is a data race and at least one of its frames
-/// lies in a source file of /repo (races wholly inside the pool implementation's lock-free queues are not the
-/// subject, and ThreadSanitizer does not model their fences).
+/// Splits a ThreadSanitizer log into reports; a report counts when it is a data race and, in at least one of the two
+/// access stacks, the innermost frames up to the first one in a source file of /repo contain no frame of the pool
+/// implementation (races inside rayon / crossbeam - their queues, their thread start-up - are not the subject, and
+/// ThreadSanitizer does not model their fences).
 pub fn reports(stderr: &str) -> (Vec<String>, usize) {
     let mut counted = vec![];
     let mut other = 0;
     for block in stderr.split("WARNING: ThreadSanitizer: ").skip(1) {
         let block = block.split("==================").next().unwrap_or(block);
-        if block.starts_with("data race") && block.contains("/repo/crates/") {
-            let site: Vec<&str> = block.lines().filter(|l| l.contains("/repo/crates/")).take(2).map(|l| l.trim()).collect();
-            counted.push(site.join(" | "));
-        } else {
+        if !block.starts_with("data race") {
             other += 1;
+            continue;
+        }
+        // the two access stacks: paragraphs that start with "Write of size" / "Previous read of size" / "Atomic ..."
+        let mut sites: Vec<String> = vec![];
+        for para in block.split("\n\n") {
+            let mut lines = para.lines().filter(|l| !l.trim().is_empty());
+            let Some(head) = lines.next() else { continue };
+            if !head.contains(" of size ") {
+                continue;
+            }
+            let frames: Vec<&str> = lines.filter(|l| l.trim_start().starts_with('#')).collect();
+            let Some(k) = frames.iter().position(|l| l.contains("/repo/crates/")) else { continue };
+            // an access made inside the pool implementation (its queues, its thread start-up) on behalf of a decoder
+            // function further out is not an access of the decoder
+            if frames[..k].iter().any(|l| l.contains("rayon") || l.contains("crossbeam")) {
+                continue;
+            }
+            sites.push(frames[k].trim().to_string());
+        }
+        if sites.is_empty() {
+            other += 1;
+        } else {
+            counted.push(sites.join(" | "));
         }
     }
     (counted, other)
